@@ -8,6 +8,7 @@ import (
 	"sort"
 	"strings"
 	"sync"
+	"sync/atomic"
 	"testing"
 
 	binlogpb "google.golang.org/grpc/binarylog/grpc_binarylog_v1"
@@ -126,6 +127,10 @@ func c55OnlyCounted(es []c55Ent) []c55Ent {
 // statement, so that a known defect of one class cannot mask another.
 func c55Classify(raw []c55Ent, limit uint64, got []c55Ent, flag bool, pan any) (class, desc string) {
 	loggable, cut, want, wantFlag := c55Expect(raw, limit)
+	return c55ClassifyExp(raw, limit, got, flag, pan, loggable, cut, want, wantFlag)
+}
+
+func c55ClassifyExp(raw []c55Ent, limit uint64, got []c55Ent, flag bool, pan any, loggable []c55Ent, cut int, want []c55Ent, wantFlag bool) (class, desc string) {
 	d := func(what string) string {
 		return fmt.Sprintf("%s\n  headers=%s headerLimit=%d\n  loggable=%s longest fitting prefix=%d entries\n  statement: logged=%s truncated=%v\n  real code: logged=%s truncated=%v",
 			what, c55Fmt(raw), limit, c55Fmt(loggable), cut, c55Fmt(want), wantFlag, c55Fmt(got), flag)
@@ -376,7 +381,7 @@ func TestVerif_C55_BinaryLog(t *testing.T) {
 
 	maxLen := r.Pick(4, 5)
 	var limits []uint64
-	for l := 0; l <= r.Pick(12, 20); l++ {
+	for l := 0; l <= 12; l++ {
 		limits = append(limits, uint64(l))
 	}
 	limits = append(limits, c55Huge, c55MaxU)
@@ -418,14 +423,22 @@ func TestVerif_C55_BinaryLog(t *testing.T) {
 	stats := make([]c55Stat, runtime.GOMAXPROCS(0)+1)
 
 	// ---- 1. header lists x limits ----
+	var over atomic.Bool
 	c55Par(total, func(w int, i int64) {
+		if over.Load() {
+			return
+		}
+		if i%8192 == 0 && r.OverBudget() {
+			over.Store(true)
+			return
+		}
 		raw := c55ListAt(i, syms, maxLen)
 		st := &stats[w]
 		for li, lim := range limits {
 			got, flag, pan := c55RunMD(raw, lim)
-			class, desc := c55Classify(raw, lim, got, flag, pan)
-			st.evals++
 			loggable, cut, want, wantFlag := c55Expect(raw, lim)
+			class, desc := c55ClassifyExp(raw, lim, got, flag, pan, loggable, cut, want, wantFlag)
+			st.evals++
 			nt := false
 			if len(loggable) < len(raw) {
 				st.omittedIn++
@@ -468,6 +481,9 @@ func TestVerif_C55_BinaryLog(t *testing.T) {
 		sum.tbBeyond += s.tbBeyond
 		sum.omittedIn += s.omittedIn
 		sum.tbAft += s.tbAft
+	}
+	if over.Load() {
+		r.Cap(P, "time budget hit during header-list enumeration: not every list of the stated bound was evaluated")
 	}
 	r.Eval(P, sum.evals)
 	r.NontrivialN(P, sum.nontriv)
@@ -513,6 +529,7 @@ func TestVerif_C55_BinaryLog(t *testing.T) {
 	}
 	r.Eval(P, mEv)
 	r.NontrivialN(P, mNt)
+	r.Set(P, "outcome_counts", oc)
 	r.Set(P, "message_cases", mEv)
 
 	// ---- 3. Build()-level wiring: the truncation result and flag must reach
